@@ -360,6 +360,147 @@ def popen_and_run(ctx, sigs):
             common.report(ctx, 'popen/wait/signal', 'PopenSpawn.wait() for signal %d: returned %r exitstatus %r signalstatus %r' % (s, r, p.exitstatus, p.signalstatus), dict(sig=s))
 
 
+def wait_dead(pid, limit=3.0):
+    """wait (without reaping) until the process has ended"""
+    t0 = time.time()
+    while time.time() - t0 < limit:
+        if proc_state(pid) in ('Z', 'X', None):
+            return True
+        time.sleep(0.005)
+    return False
+
+
+def popen_histories(ctx, sigs):
+    """PopenSpawn: every order of {kill (also on a child that has already ended), wait, wait again}; the status fields are the
+    child's real fate and never change"""
+    import signal as sg
+    plans = [('e', 0), ('e', 3), ('e', 200), ('s', 9), ('s', 15)] if ctx.quick() else [('e', c) for c in (0, 1, 3, 77, 200, 255)] + [('s', x) for x in (1, 2, 9, 15)]
+    for plan in plans:
+        for hist in (['wait', 'wait'], ['dead', 'kill', 'wait'], ['dead', 'kill', 'wait', 'kill', 'wait'], ['kill', 'wait', 'wait'], ['dead', 'wait', 'kill']):
+            if plan[0] == 'e':
+                code = 'import sys,time\nsys.stdin.readline()\nsys.exit(%d)' % plan[1]
+            else:
+                code = 'import os,sys\nsys.stdin.readline()\nos.kill(os.getpid(), %d)' % plan[1]
+            p = popen_spawn.PopenSpawn([common.PY, '-c', code])
+            fate = plan
+            seen = []
+            alive = True
+            try:
+                for op in hist:
+                    if op == 'dead':
+                        p.sendline('go'); wait_dead(p.proc.pid); alive = False
+                    elif op == 'kill':
+                        if alive:
+                            fate = ('s', 15)
+                        try:
+                            p.kill(sg.SIGTERM)
+                        except Exception:
+                            pass
+                        if alive:
+                            wait_dead(p.proc.pid); alive = False
+                    elif op == 'wait':
+                        if alive:
+                            p.sendline('go'); alive = False
+                        r = p.wait()
+                        seen.append((r, p.exitstatus, p.signalstatus, p.terminated))
+            except Exception as e:      # noqa
+                seen.append(('EXC:' + type(e).__name__,))
+            want = (fate[1], fate[1], None, True) if fate[0] == 'e' else (-fate[1], None, fate[1], True)
+            sigs.add(('popen-hist', tuple(hist), fate[0]))
+            bad = [x for x in seen if x != want]
+            if bad or not seen:
+                common.report(ctx, 'popen/history/%s' % '-'.join(hist), 'PopenSpawn child ending with %s, history %s: wait() / status fields %r, expected %r' % (
+                    fate, hist, seen, want), dict(plan=list(plan), history=hist))
+            try:
+                p.proc.stdin.close(); p.proc.stdout.close()
+            except Exception:
+                pass
+
+
+def hostile_close(ctx, sigs):
+    """close() must give up the descriptor and mark the object closed on every path — also when something around it fails:
+    (a) the child was reaped behind pexpect's back (SIGCHLD ignored, another os.wait in the program), (b) an attached log file has
+    already been closed.  Afterwards I/O must fail on the object instead of touching a descriptor number that may be reused."""
+    import socket, io
+    for scen in ('reaped-behind', 'closed-logfile', 'closed-logfile-with'):
+        for kind in (('pty',) if scen == 'reaped-behind' else ('pty', 'fd', 'socket')):
+            extra = []
+            if kind == 'pty':
+                p = pexpect.spawn('sh', ['-c', 'read x; exit 3'], timeout=3, echo=False)
+                n = p.child_fd
+            elif kind == 'fd':
+                r, w = os.pipe(); extra = [w]
+                p = fdpexpect.fdspawn(r, timeout=1); n = r
+            else:
+                a, b = socket.socketpair(); extra = [b]
+                p = socket_pexpect.SocketSpawn(a, timeout=1); n = a.fileno()
+            problems = []
+            try:
+                if scen == 'reaped-behind':
+                    p.sendline('go'); wait_dead(p.pid)
+                    os.waitpid(p.pid, 0)
+                else:
+                    lf = io.BytesIO(); p.logfile = lf; lf.close()
+                raised = None
+                if scen == 'closed-logfile-with':
+                    try:
+                        with p:
+                            raise KeyError('from inside the with-block')
+                    except KeyError:
+                        raised = 'KeyError'
+                    except Exception as e:      # noqa
+                        raised = type(e).__name__
+                    if raised != 'KeyError':
+                        problems.append('the with-block replaced the KeyError raised inside it by %s' % raised)
+                else:
+                    try:
+                        p.close()
+                    except pexpect.ExceptionPexpect:
+                        pass                      # allowed when the child cannot be confirmed dead; the object must still be released
+                    except Exception as e:      # noqa
+                        problems.append('close() raised %s: %s' % (type(e).__name__, str(e)[:60]))
+                if p.child_fd != -1 or not p.closed:
+                    problems.append('after close: child_fd=%r closed=%r' % (p.child_fd, p.closed))
+                if kind != 'pty' and os.path.exists('/proc/self/fd/%d' % n) and not problems:
+                    problems.append('descriptor %d still open after close' % n)
+                # a new descriptor takes the old number: later I/O on the object must not reach it
+                s1, s2 = socket.socketpair()
+                try:
+                    try:
+                        p.send(b'LEAK')
+                        problems.append('send() after close succeeded')
+                    except Exception:
+                        pass
+                    s2.setblocking(False)
+                    try:
+                        if s2.recv(10) or False:
+                            problems.append('send() after close wrote into an unrelated descriptor')
+                    except BlockingIOError:
+                        pass
+                    try:
+                        s1.setblocking(False)
+                        if s1.recv(10):
+                            problems.append('send() after close wrote into an unrelated descriptor')
+                    except BlockingIOError:
+                        pass
+                finally:
+                    s1.close(); s2.close()
+            finally:
+                for x in extra:
+                    try:
+                        x.close() if hasattr(x, 'close') else os.close(x)
+                    except Exception:
+                        pass
+                try:
+                    p.logfile = None
+                    p.close(force=True) if kind == 'pty' else p.close()
+                except Exception:
+                    pass
+            sigs.add(('hostile-close', scen, kind, not problems))
+            if problems:
+                common.report(ctx, 'close/%s/%s' % (scen, kind), '%s, %s: %s' % (scen, kind, '; '.join(problems)), dict(scenario=scen, kind=kind, problems=problems))
+
+
 OPS = ['alive', 'wait', 'kill:1', 'kill:2', 'kill:9', 'kill:15', 'kill:18', 'term:0', 'term:1', 'close:0', 'close:1', 'ends', 'send', 'read']
 
 
@@ -424,9 +565,11 @@ def run(ctx):
             ctx.broken.append('correspondence life-cycle model vs real child(%s, %s) ops %s: real [%s] model [%s]' % (d or 'normal', plan, ops, real, mo))
     if prop == 'C09':
         popen_and_run(ctx, sigs)
+        popen_histories(ctx, sigs)
     else:
         leak_check(ctx, 12 if ctx.quick() else 200)
         fd_socket_lifecycle(ctx, sigs)
+        hostile_close(ctx, sigs)
     return common.finish(
         ctx, 'real pty children with dispositions {normal, ignores HUP, ignores INT, both, stopped, ...} and a planned end (exit code / signal); operation '
              'sequences over {isalive, wait, kill(sig), terminate(force), close(force), child ends, send, read}: corpus, (C09) every exit code / signal class x 5 '
